@@ -474,6 +474,14 @@ def rule_wiring(fx, rep):
                 if isinstance(v, str):
                     fr.storev(t['dest'], v)
                     return True
+            if c.get('name') == 'is_zero' and c.get('trait') in ('CurveAffine', 'CurveProjective') and len(t['args']) == 1:
+                v = fr.deref_operand(t['args'][0])
+                if isinstance(v, str):
+                    fr.storev(t['dest'], ('bool', ('is_identity', v)))
+                    return True
+            if c.get('name') == 'one' and c.get('trait') == 'ff::Field' and not t['args'] and (c.get('self_ty') or '').endswith('Fq12'):
+                fr.storev(t['dest'], 'ONE')
+                return True
             return False
         I = exp.Interp(fx, 'none', extra_transfer=trp, inline=lambda q: INL.is_private_helper(fx, q))
         okp, why = False, ''
@@ -482,8 +490,27 @@ def rule_wiring(fx, rep):
             rep.sites(I.call_sites)
             res = [r_ for r_ in res if not (isinstance(r_[1], tuple) and r_[1] and r_[1][0] == 'diverges')]
             want = ('pairing', 'SELF', 'OTHER') if order == (1, 2) else ('pairing', 'OTHER', 'SELF')
-            okp = len(res) == 1 and res[0][1] == want
-            why = 'returns %r, expected %r' % ([r_[1] for r_ in res], want)
+            # every path returns the pairing of the two arguments; a path taken only when an argument is the identity
+            # may return 1 outright (e(O, Q) = e(P, O) = 1)
+            import tt as TT_
+            bads = []
+            n_general = 0
+            for pth_, ret_, _o in res:
+                lits = TT_.path_literals(pth_)
+                other_lits = [l for l in lits if not (l[0] and l[0][0] == 'is_identity')]
+                assumes_identity = any(l[0] and l[0][0] == 'is_identity' and l[1] for l in lits)
+                if other_lits:
+                    bads.append('branches on %r' % (other_lits[0][2],))
+                elif ret_ == want:
+                    n_general += 0 if assumes_identity else 1
+                elif ret_ == 'ONE' and assumes_identity:
+                    pass
+                else:
+                    bads.append('returns %r%s, expected %r' % (ret_, ' when an argument is the identity' if assumes_identity else '', want))
+            if not n_general and not bads:
+                bads.append('no path pairs two finite arguments')
+            okp = not bads
+            why = '; '.join(bads[:2])
         except (exp.NotDerivable, exp.Budget) as e:
             why = 'not derivable: %s' % e
         rep.check(okp, 'WIRE', '%s:pairing_with' % g, 'pairing_with(self, other) = Bls12::pairing(G1 element, G2 element) (by interpretation, helpers inlined)', why, fx.fn(pw)['span'], construct=pw)
